@@ -225,7 +225,7 @@ class History:
         h = self.pick()
         if h is None:
             return
-        ops = ["fill", "fill", "fill_n", "fill_n", "fill_w", "fill_n_w", "imul", "idiv", "iadd_copy", "iadd_peer", "set_dtype", "normalize_inplace", "merge_inplace", "meta", "isub"]
+        ops = ["fill", "fill", "fill_n", "fill_n", "fill_w", "fill_n_w", "imul", "idiv", "iadd_copy", "iadd_peer", "set_dtype", "normalize_inplace", "merge_inplace", "meta", "isub", "read"]
         if h.is_adaptive():
             ops += ["fill_grow", "fill_n_grow", "fill_grow", "iadd_grown"]
         elif all(type(b).__name__ == "FixedWidthBinning" for b in h.binnings):
@@ -295,6 +295,30 @@ class History:
                     h.normalize(inplace=True)
             elif op == "merge_inplace":
                 h.merge_bins(2, axis=rng.randrange(h.ndim), inplace=True)
+            elif op == "read":
+                # reading representations / predicates (which may fill caches) changes nothing - now or for later operations
+                from .attach import quiet
+
+                names = ["bins", "edges", "numpy_bins", "densities", "bin_sizes", "total", "shape", "bin_count", "errors", "frequencies", "missed", "statistics"]
+                with quiet():
+                    pre = self.world.snapshot_all()
+                with warnings.catch_warnings():
+                    warnings.simplefilter("ignore")
+                    for nm in rng.sample(names, rng.randint(1, 5)):
+                        try:
+                            getattr(h, nm)
+                        except Exception:
+                            pass
+                    for b in h.binnings:
+                        gen.touch_binning(rng, b, p=0.8)
+                    try:
+                        repr(h), str(h.binnings[0])
+                    except Exception:
+                        pass
+                with quiet():
+                    self.world.check(self.ctx.rec, op="read-only accessors", pre=pre, targets=[], result=None, exc=None, operands=[], detail={"direct": True})
+                self.note(f"read accessors of {type(h).__name__}")
+                return
             elif op == "meta":
                 which = rng.randrange(4)
                 self.stats["direct"] += 1
